@@ -275,3 +275,22 @@ func TestFindingLevelDbReloadCounters(t *testing.T) {
 	h.nm.Close()
 	vlib.Finding(t, keyLevelDbCounts, before != after, fmt.Sprintf("leveldb map: Put(5) Put(5) Put(6) Delete(6) Put(6): counters while running %v, after reloading the .idx %v", before, after))
 }
+
+func TestFindingReloadRedundantTombstones(t *testing.T) {
+	dir := vlib.TempDir()
+	defer os.RemoveAll(dir)
+	h := &mapperHarness{kind: "memory", dir: dir, ref: newRef(), shadow: needle_map.NewCompactMap(), puts: map[uint64]int{}}
+	h.open(t)
+	h.nm.Put(5, offOf(1), 10)
+	h.nm.Put(6, offOf(2), 20)
+	h.nm.Delete(6, offOf(3))
+	h.nm.Delete(6, offOf(4)) // already deleted (what the incremental-backup replay does for a repeated tombstone record)
+	h.nm.Delete(4, offOf(5)) // never stored
+	before := readCounters(h.nm)
+	h.nm.Close()
+	h.open(t)
+	after := readCounters(h.nm)
+	h.nm.Close()
+	vlib.Finding(t, keyRedundantTomb, before.deleted != after.deleted || before.files != after.files || before.deletedSz != after.deletedSz,
+		fmt.Sprintf("memory map: Put(5) Put(6) Delete(6) Delete(6) Delete(4): counters while running %v, after reloading the .idx %v (one live needle)", before, after))
+}
